@@ -20,7 +20,7 @@ EXPLANATION = (
     "(5) the special trie values are exactly the ones get_recurse dispatches on and the key table is prefix-free."
     " Added after seed round 3: (7) FLAG-FWD - every decoder that takes `more_available` receives its caller's own flag (the nested ESC-prefixed decode included); (8) the byte ranges of within_double_byte as integer intervals (C11.8)."
     ' Round 4: (9) string methods are applied to an event of the nested ESC decode only after an isinstance test excluded every tuple event (mouse 4-tuples and cursor-position 3-tuples).'
-    ' Round-4 triage: (10) a caller of parse_input without an event loop (the synchronous get_input) decodes a held partial sequence itself: every path from its first synchronous parse passes a test of _partial_codes whose true branch parses with wait_for_more=False. Round 5: (11) the SGR mouse decoder finds the first `M` or `m` with one joint test.'
+    ' Round-4 triage: (10) a caller of parse_input without an event loop (the synchronous get_input) decodes a held partial sequence itself: every path from its first synchronous parse passes a test of _partial_codes whose true branch parses with wait_for_more=False. Round 5: (11) the SGR mouse decoder finds the first `M` or `m` with one joint test; (12) every os.read() drain loop leaves on an empty read (end of file); (10) now also accepts a wait_for_more argument that can be False (the refined fix 190a3c8 waits while new bytes keep arriving).'
 )
 NOT_DECIDED = (
     "That event names/coordinates are the documented ones for every sequence; equality of event lists under all cuts for value-dependent recognisers "
@@ -529,7 +529,12 @@ def rule_sync_timeout(ctx: Ctx) -> RuleResult:
         cfg = cfg_of(fi)
 
         def no_wait(c):
-            return any(k.arg == "wait_for_more" and isinstance(k.value, ast.Constant) and k.value.value is False for k in c.keywords) or (len(c.args) > 3 and isinstance(c.args[3], ast.Constant) and c.args[3].value is False)
+            """the call can decode held bytes as they stand: wait_for_more is False, or an expression that can be False
+            (e.g. `len(codes) > pending` - wait only while something new arrived)"""
+            v = next((k.value for k in c.keywords if k.arg == "wait_for_more"), c.args[3] if len(c.args) > 3 else None)
+            if v is None:
+                return False
+            return not (isinstance(v, ast.Constant) and v.value is not False)
 
         sync = [c for c in calls if not no_wait(c)]
         final = [c for c in calls if no_wait(c)]
@@ -579,6 +584,33 @@ def rule_first_terminator(ctx: Ctx) -> RuleResult:
     return rr
 
 
+def rule_drain_eof(ctx: Ctx) -> RuleResult:
+    """'decoding terminates': the raw input is drained with `while ready: os.read(fd, n); ready = select(0)`.  At end of
+    file (the terminal went away, a pipe was closed) select() reports the descriptor readable forever and os.read()
+    returns b'' - the loop only ends if it looks at what it read.  Every such drain loop leaves on an empty read."""
+    p = ctx.p
+    rr = RuleResult("PROG", "C05.12", "every loop that drains a descriptor with os.read() leaves when the read returns nothing (end of file)", floor=1)
+    for fi in p.functions.values():
+        if not fi.module.name.startswith("urwid.display"):
+            continue
+        for lp in [n for n in fi.own_nodes() if isinstance(n, ast.While)]:
+            reads = [c for c in ast.walk(lp) if isinstance(c, ast.Call) and ast.unparse(c.func) == "os.read"]
+            if not reads:
+                continue
+            # the result is bound to a name that an `if not name: break / return` tests, or the loop condition tests it
+            names = {t.id for a in ast.walk(lp) if isinstance(a, ast.Assign) and any(r in list(ast.walk(a.value)) for r in reads) for t in a.targets if isinstance(t, ast.Name)}
+            ok = False
+            for t in ast.walk(lp):
+                if isinstance(t, ast.If) and any(isinstance(x, (ast.Break, ast.Return)) for b in t.body for x in ast.walk(b)):
+                    tt = t.test
+                    if isinstance(tt, ast.UnaryOp) and isinstance(tt.op, ast.Not) and isinstance(tt.operand, ast.Name) and tt.operand.id in names:
+                        ok = True
+            rr.inst(f"{short(fi)}:{norm(lp.test, 30)}", True, {"function": short(fi), "loop": norm(lp.test, 40), "read_bound_to": sorted(names), "leaves_on_empty_read": ok})
+            if not ok:
+                rr.add(finding("PROG", fi, lp, f"`while {norm(lp.test, 30)}` drains the descriptor with os.read() and never looks at what it read: at end of file the descriptor stays readable and os.read() returns b'' for ever - get_input() and the event-loop input callback hang when the terminal goes away", construct=f"{fi.name}: drain loop without end-of-file exit"))
+    return rr
+
+
 def run(ctx: Ctx):
     p = ctx.p
     out = [
@@ -604,6 +636,7 @@ def run(ctx: Ctx):
     out.append(rule_event_kind(ctx))
     out.append(rule_sync_timeout(ctx))
     out.append(rule_first_terminator(ctx))
+    out.append(rule_drain_eof(ctx))
     return out
 
 
@@ -612,9 +645,11 @@ from ..mutants import Mut  # noqa: E402
 _E = "urwid/display/escape.py"
 _R = "urwid/display/_raw_display_base.py"
 MUTANTS = [
+    Mut("raw-input-drain-ignores-eof", "urwid/display/_posix_raw_display.py", "urwid.display._posix_raw_display.Screen._read_raw_input", "                data = os.read(fd, 1024)\n                if not data:\n                    # end of file: the descriptor stays \"readable\" forever\n                    break\n                chars.extend(data)", "                chars.extend(os.read(fd, 1024))", "PROG|display._posix_raw_display.Screen._read_raw_input"),
     Mut("sgr-mouse-prefers-press-terminator", _E, "KeyqueueTrie.read_sgrmouse_info", "        value = \"\"\n        pos_m = 0\n        found_m = False\n        for k in keys:\n            value += chr(k)\n            if k in {ord(\"M\"), ord(\"m\")}:\n                found_m = True\n                break\n            pos_m += 1\n        if not found_m:", "        value = \"\".join(chr(k) for k in keys)\n        pos_m = value.find(\"M\")\n        if pos_m < 0:\n            pos_m = value.find(\"m\")\n        found_m = pos_m >= 0\n        value = value[: pos_m + 1]\n        if not found_m:", "SIB|display.escape.KeyqueueTrie.read_sgrmouse_info"),
-    Mut("sync-get-input-holds-partial-forever", "urwid/display/_raw_display_base.py", "urwid.display._raw_display_base.Screen.get_input", "        if self._partial_codes:\n            # an incomplete sequence and no event loop to set an alarm on: give the rest complete_wait\n            # to arrive here, then decode what there is as it stands\n            self._wait_for_input_ready(self.complete_wait)\n            new_keys, new_raw = self.parse_input(None, None, self.get_available_raw_input(), wait_for_more=False)\n            keys += new_keys\n            raw += new_raw\n", "", "PASS|display._raw_display_base.Screen.get_input"),
-    Mut("sync-get-input-second-parse-still-waits", "urwid/display/_raw_display_base.py", "urwid.display._raw_display_base.Screen.get_input", "self.parse_input(None, None, self.get_available_raw_input(), wait_for_more=False)", "self.parse_input(None, None, self.get_available_raw_input())", "PASS|display._raw_display_base.Screen.get_input"),
+    Mut("sync-get-input-holds-partial-forever", "urwid/display/_raw_display_base.py", "urwid.display._raw_display_base.Screen.get_input", "        while self._partial_codes:\n", "        while False:\n", "PASS|display._raw_display_base.Screen.get_input"),
+    Mut("sync-get-input-second-parse-still-waits", "urwid/display/_raw_display_base.py", "urwid.display._raw_display_base.Screen.get_input", "self.parse_input(None, None, codes, wait_for_more=len(codes) > pending)", "self.parse_input(None, None, codes)", "PASS|display._raw_display_base.Screen.get_input"),
+    Mut("twin-sync-get-input-constant-false", "urwid/display/_raw_display_base.py", "urwid.display._raw_display_base.Screen.get_input", "self.parse_input(None, None, codes, wait_for_more=len(codes) > pending)", "self.parse_input(None, None, codes, wait_for_more=False)", twin=True),
     Mut("meta-branch-only-knows-mouse-tuples", _E, "process_keyqueue", "        if isinstance(run[0], tuple):", "        if urwid.util.is_mouse_event(run[0]):", "KIND|display.escape.process_keyqueue"),
     Mut("meta-decode-never-waits", _E, "process_keyqueue", "run, remaining_codes = process_keyqueue(codes[1:], more_available)", "run, remaining_codes = process_keyqueue(codes[1:], False)", "FLAG-FWD|display.escape.process_keyqueue"),
     Mut("mouse-info-no-more-input", _E, "KeyqueueTrie.read_mouse_info", "        if len(keys) < 3:\n            if more_available:\n                raise MoreInputRequired()\n            return None", "        if len(keys) < 3:\n            return None", "PAIR|display.escape.KeyqueueTrie.read_mouse_info"),
